@@ -374,6 +374,15 @@ class C02(Property):
         ("antismash/common/hmm_rule_parser/cluster_prediction.py", "create_rules"),
         ("antismash/common/hmm_rule_parser/structures.py", "Multipliers"),
         ("antismash/detection/hmm_detection/__init__.py", "_get_rule_files_for_strictness"),
+        ("antismash/detection/hmm_detection/__init__.py", "get_ruleset"),
+        ("antismash/detection/hmm_detection/__init__.py", "_get_rules"),
+        ("antismash/detection/hmm_detection/__init__.py", "check_options"),
+        ("antismash/detection/hmm_detection/__init__.py", "_STRICTNESS_LEVELS"),
+        ("antismash/common/hmm_rule_parser/cluster_prediction.py", "Ruleset.__post_init__"),
+        ("antismash/common/hmm_rule_parser/cluster_prediction.py", "Ruleset.copy_with_replacements"),
+        ("antismash/common/hmm_rule_parser/cluster_prediction.py", "Ruleset.from_files"),
+        ("antismash/common/hmm_rule_parser/cluster_prediction.py", "Ruleset.rules"),
+        ("antismash/common/hmm_rule_parser/structures.py", "Multipliers.__post_init__"),
     ]
     RULE = ("rule files derived from the documented grammar (condition depth <= 6, redundant parentheses, not/and/or "
             "mixes, cds/minimum/minscore, 1-6 rules over 1-3 files sharing aliases and rules through create_rules, "
@@ -384,12 +393,20 @@ class C02(Property):
             "stray character) and targeted ill-formed variants (every class the property lists) checked against the "
             "model and the well-formedness predicate; the three shipped rule files with the real signatures; the "
             "tokeniser alone on random character strings; thorough/deep: every token string of length <= 6 (5) over "
-            "{a,b,and,or,not,(,),cds} after a fixed header.  non-trivial = an accepted file with a condition of "
+            "{a,b,and,or,not,(,),cds} after a fixed header; sequences of 2-6 hmm_detection.get_ruleset() calls in one "
+            "process through build_config (taxon, fungal multipliers incl. defaults and invalid ones, rule/category "
+            "limits, repeated requests; in half of the steps preceded by check_options, whose verdict is checked against "
+            "the Lean spec `optionsOk`), every ruleset read when returned and again after the last call, checked "
+            "against the Lean spec `wanted` (shipped rules restricted and scaled once); Ruleset.from_files with "
+            "multipliers.  non-trivial = an accepted file with a condition of "
             "depth >= 2, or a rejected corruption of one; distinct by text")
     TRUSTED = ["Python str.isalnum/isalpha/isdigit and int() are modelled for ASCII only (generators emit ASCII)",
                "`text.expandtabs()` and line/position bookkeeping only affect error messages, which are not observed",
                "multipliers are modelled as exact fractions; generated multipliers are dyadic so the float product is exact",
-               "error *kinds* are compared (syntax / value / attribute), not messages"]
+               "error *kinds* are compared (syntax / value / attribute), not messages",
+               "get_ruleset sequences: build_config, the signature/HMM file readers and the equivalence-group / dynamic-"
+               "profile checks of Ruleset.__post_init__ run for real but are not modelled; fungal multipliers reach Lean "
+               "as float.as_integer_ratio() (exact)"]
 
     def __init__(self) -> None:
         self._tmp: Optional[str] = None
@@ -536,11 +553,62 @@ class C02(Property):
             text = "".join(rng.choice(chars) for _ in range(rng.choice([1, 3, 8, 20])))
             yield {"kind": "tokens", "text": text}
 
+    # rulesets: sequences of get_ruleset() calls within one process, and Ruleset.from_files
+    MULT_VALUES = [0.5, 1.0, 1.0, 1.5, 2.0, 0.25, 3.0, 1.25, None, None]
+    SOME_RULES = ["T1PKS", "NRPS", "terpene", "lanthipeptide-class-i", "T3PKS", "NRPS-like", "siderophore",
+                  "fatty_acid", "saccharide", "no-such-rule"]
+    SOME_CATS = ["PKS", "NRPS", "RiPP", "terpene", "saccharide", "other", "alkaloid"]
+
+    def ruleset_step(self, rng: random.Random, level: str) -> Dict[str, Any]:
+        step: Dict[str, Any] = {"strictness": level, "taxon": "fungi" if rng.random() < 0.6 else "bacteria",
+                                "cmul": rng.choice(self.MULT_VALUES), "nmul": rng.choice(self.MULT_VALUES),
+                                "names": [], "cats": []}
+        if rng.random() < 0.3:
+            step["names"] = rng.sample(self.SOME_RULES, rng.choice([1, 2, 3]))
+        if rng.random() < 0.25:
+            step["cats"] = rng.sample(self.SOME_CATS, rng.choice([1, 2]))
+        if rng.random() < 0.04:
+            step[rng.choice(["cmul", "nmul"])] = rng.choice([0.0, -1.0])
+        # antiSMASH proper runs check_options (which builds and caches the ruleset) before the analysis asks for it
+        step["check"] = rng.random() < 0.5
+        return step
+
+    def ruleset_cases(self, rng: random.Random, count: int) -> Iterator[Dict[str, Any]]:
+        # the smallest sequence in which a later request could disturb an earlier ruleset, first
+        yield {"kind": "rulesets", "steps": [
+            {"strictness": "relaxed", "taxon": "fungi", "cmul": 2.0, "nmul": 1.5, "names": [], "cats": []},
+            {"strictness": "relaxed", "taxon": "bacteria", "cmul": None, "nmul": None, "names": [], "cats": []},
+            {"strictness": "relaxed", "taxon": "fungi", "cmul": 1.0, "nmul": 3.0, "names": ["T1PKS", "NRPS"], "cats": []}]}
+        # every way check_options can object, each once, between two requests that are fine
+        base = {"strictness": "strict", "taxon": "bacteria", "cmul": None, "nmul": None, "names": [], "cats": [], "check": True}
+        yield {"kind": "rulesets", "steps": [
+            dict(base, taxon="fungi", cmul=0.5),
+            dict(base, cmul=0.0), dict(base, nmul=-1.0), dict(base, taxon="fungi", nmul=0.0),
+            dict(base, names=["T1PKS", "no-such-rule"]), dict(base, cats=["PKS", "no-such-category"]),
+            dict(base, strictness="relaxed", names=["T1PKS"], cats=["PKS"], taxon="fungi")]}
+        for _ in range(count):
+            level = rng.choice(["strict", "relaxed", "relaxed", "loose"])
+            steps = []
+            for _ in range(rng.choice([2, 3, 3, 4, 5])):
+                steps.append(self.ruleset_step(rng, level if rng.random() < 0.85 else rng.choice(["strict", "relaxed", "loose"])))
+            if rng.random() < 0.5:   # ask again for something asked before (cache hit)
+                steps.append(dict(rng.choice(steps)))
+            yield {"kind": "rulesets", "steps": steps}
+
+    def from_files_cases(self, rng: random.Random, count: int) -> Iterator[Dict[str, Any]]:
+        for _ in range(count):
+            yield {"kind": "from_files", "strictness": rng.choice(["strict", "relaxed", "loose"]),
+                   "cmul": rng.choice([1.0, 1.5, 2.0, 0.5]), "nmul": rng.choice([1.0, 1.5, 3.0, 0.25])}
+
     def cases(self, rng: random.Random, tier: str, deep: bool) -> Iterator[Dict[str, Any]]:
+        yield from self.ruleset_cases(rng, 150 if tier == "thorough" else 40 if deep else 12)
+        yield from self.from_files_cases(rng, 12 if deep else 4)
         for level in ("strict", "relaxed", "loose"):
             yield {"kind": "parse", "shipped": level, "via": "create", "cmul": [1, 1], "nmul": [1, 1]}
         yield {"kind": "parse", "shipped": "loose", "via": "create", "cmul": [3, 2], "nmul": [1, 2]}
-        n_well = 2500 if deep else 450
+        yield {"kind": "parse", "shipped": rng.choice(["strict", "relaxed", "loose"]), "via": "get_rules",
+               "cmul": [1, 1], "nmul": [1, 1]}
+        n_well = 2500 if deep else 400
         for i in range(n_well):
             case, _ = self.wellformed(rng)
             yield case
@@ -613,6 +681,10 @@ class C02(Property):
             except Exception as exc:  # pylint: disable=broad-except
                 return {"err_tok": self._kind(exc)}
             return {"tokens": [[t.token_text, t.type.name] for t in toks]}
+        if case["kind"] == "rulesets":
+            return self._run_rulesets(case)
+        if case["kind"] == "from_files":
+            return self._run_from_files(case)
         mult = Multipliers(case["cmul"][0] / case["cmul"][1], case["nmul"][0] / case["nmul"][1])
         old = signal.signal(signal.SIGALRM, _alarm)
         signal.setitimer(signal.ITIMER_REAL, 10.0)
@@ -620,8 +692,12 @@ class C02(Property):
             if "shipped" in case:
                 from antismash.detection import hmm_detection as hd
                 sigs, cats = self._shipped()
-                paths = hd._get_rule_files_for_strictness(case["shipped"])  # pylint: disable=protected-access
-                rules = create_rules(paths, set(sigs), set(cats), mult)
+                if case.get("via") == "get_rules":
+                    # the module's own chaining of Parser instances (used to validate --limit-to-rule-names)
+                    rules = hd._get_rules(case["shipped"])  # pylint: disable=protected-access
+                else:
+                    paths = hd._get_rule_files_for_strictness(case["shipped"])  # pylint: disable=protected-access
+                    rules = create_rules(paths, set(sigs), set(cats), mult)
             else:
                 sigs, cats = case["sigs"], case["cats"]
                 if case.get("via") == "parser" and len(case["files"]) == 1:
@@ -649,9 +725,89 @@ class C02(Property):
             signal.setitimer(signal.ITIMER_REAL, 0)
             signal.signal(signal.SIGALRM, old)
 
+    @staticmethod
+    def _rows(ruleset: Any) -> List[List[Any]]:
+        return [[r.name, r.category, int(r.cutoff), int(r.neighbourhood)] for r in ruleset.rules]
+
+    @staticmethod
+    def _step_args(step: Dict[str, Any]) -> List[str]:
+        args = ["--taxon", step["taxon"], "--hmmdetection-strictness", step["strictness"]]
+        if step["cmul"] is not None:
+            args += ["--hmmdetection-fungal-cutoff-multiplier", repr(step["cmul"])]
+        if step["nmul"] is not None:
+            args += ["--hmmdetection-fungal-neighbourhood-multiplier", repr(step["nmul"])]
+        if step["names"]:
+            args += ["--hmmdetection-limit-to-rule-names", ",".join(step["names"])]
+        if step["cats"]:
+            args += ["--hmmdetection-limit-to-rule-categories", ",".join(step["cats"])]
+        return args
+
+    def _run_rulesets(self, case: Dict[str, Any]) -> Dict[str, Any]:
+        """one process, several get_ruleset() calls through the real option handling; every ruleset handed
+        out is read when it is returned and again after the last request"""
+        from antismash.config import build_config, destroy_config
+        from antismash.detection import hmm_detection as hd
+        hd._RULESETS.clear()  # pylint: disable=protected-access
+        steps: List[Dict[str, Any]] = []
+        handed: List[Any] = []
+        reqs: List[Dict[str, Any]] = []
+        try:
+            for step in case["steps"]:
+                destroy_config()
+                options = build_config(self._step_args(step), modules=[hd])
+                reqs.append({"strictness": options.hmmdetection_strictness,
+                             "names": list(options.hmmdetection_limit_to_rules),
+                             "cats": list(options.hmmdetection_limit_to_categories),
+                             "fungi": options.taxon == "fungi",
+                             "cmul": list(float(options.hmmdetection_fungal_cutoff_multiplier).as_integer_ratio()),
+                             "nmul": list(float(options.hmmdetection_fungal_neighbourhood_multiplier).as_integer_ratio())})
+                extra: Dict[str, Any] = {}
+                if step.get("check"):
+                    reqs[-1]["check"] = True
+                    try:
+                        extra["check"] = not hd.check_options(options)
+                    except Exception as exc:  # pylint: disable=broad-except
+                        extra["check"] = self._kind(exc)
+                try:
+                    ruleset = hd.get_ruleset(options)
+                except Exception as exc:  # pylint: disable=broad-except
+                    steps.append({"err": self._kind(exc), **extra})
+                    handed.append(None)
+                    continue
+                steps.append({"rules": self._rows(ruleset), **extra})
+                handed.append(ruleset)
+            final = [self._rows(rs) if rs is not None else None for rs in handed]
+        finally:
+            destroy_config()
+            hd._RULESETS.clear()  # pylint: disable=protected-access
+        return {"steps": steps, "final": final, "reqs": reqs}
+
+    def _run_from_files(self, case: Dict[str, Any]) -> Dict[str, Any]:
+        from antismash.common.hmm_rule_parser.cluster_prediction import Ruleset
+        from antismash.common.hmm_rule_parser.structures import Multipliers
+        from antismash.detection import hmm_detection as hd
+        try:
+            ruleset = Ruleset.from_files(hd.SIGNATURE_FILE, hd.HMM_FILE,
+                                         hd._get_rule_files_for_strictness(case["strictness"]),  # pylint: disable=protected-access
+                                         hd.CATEGORIES, hd.EQUIVALENCE_GROUPS, "rule-based-clusters",
+                                         dynamic_profiles=hd.DYNAMIC_PROFILES,
+                                         multipliers=Multipliers(case["cmul"], case["nmul"]))
+        except Exception as exc:  # pylint: disable=broad-except
+            return {"err": self._kind(exc)}
+        return {"rules": self._rows(ruleset)}
+
     def driver_line(self, case: Dict[str, Any], obs: Dict[str, Any]) -> Optional[Dict[str, Any]]:
         if case["kind"] == "tokens":
             return {"kind": "tokens", "text": case["text"]}
+        if case["kind"] == "rulesets":
+            sigs, cats = self._shipped()
+            return {"kind": "rulesets", "sigs": sigs, "cats": cats, "steps": obs["reqs"],
+                    "impl_steps": obs["steps"], "impl_final": obs["final"]}
+        if case["kind"] == "from_files":
+            sigs, cats = self._shipped()
+            return {"kind": "from_files", "sigs": sigs, "cats": cats, "strictness": case["strictness"],
+                    "cmul": list(float(case["cmul"]).as_integer_ratio()),
+                    "nmul": list(float(case["nmul"]).as_integer_ratio()), "impl_rules": obs.get("rules")}
         line = {"kind": "parse", "cmul": case["cmul"], "nmul": case["nmul"], "impl": obs.get("rules"),
                 "expect": case.get("expect")}
         if "shipped" in case:
@@ -671,6 +827,20 @@ class C02(Property):
             return Judgement(same, True, nontrivial=bool(obs.get("tokens")) and len(obs["tokens"]) > 2,
                              tags=("tokeniser", "tok-error" if "err_tok" in obs else "tok-ok"),
                              detail="" if same else f"tokeniser: model {drv} vs implementation {obs}")
+        if case["kind"] == "rulesets":
+            return self._judge_rulesets(case, obs, drv)
+        if case["kind"] == "from_files":
+            model, spec = drv["model"], drv["spec"]
+            corr = model.get("rules") == obs.get("rules") and model.get("err") == obs.get("err")
+            spec_ok = spec["ok"] is not False
+            known = None
+            if not spec_ok and (case["cmul"] != 1.0 or case["nmul"] != 1.0):
+                known = "KF-C02-from-files-scales-twice"
+            detail = "" if spec_ok and corr else (
+                "Ruleset.from_files: distances are not the parsed ones scaled once by the multipliers, e.g. "
+                + str((obs.get("rules") or [None])[0]) + " for multipliers " + str((case["cmul"], case["nmul"])))
+            return Judgement(corr, spec_ok, known=known, nontrivial=case["cmul"] != 1.0 or case["nmul"] != 1.0,
+                             tags=("from_files",), detail=detail)
         model, spec = drv["model"], drv["spec"]
         tags: List[str] = ["shipped" if "shipped" in case else "small-scope" if case.get("small") else
                            "corrupted:" + case["corrupt"] if "corrupt" in case else
@@ -729,6 +899,46 @@ class C02(Property):
         nontrivial = (depth >= 2 and "rules" in obs) or "corrupt" in case or "expect_error" in case
         return Judgement(corr, spec_ok, in_scope=True, nontrivial=nontrivial, tags=tuple(tags), detail=detail)
 
+    def _judge_rulesets(self, case: Dict[str, Any], obs: Dict[str, Any], drv: Dict[str, Any]) -> Judgement:
+        model, spec = drv["model"], drv["spec"]
+        corr = model["steps"] == obs["steps"] and model["final"] == obs["final"]
+        detail = ""
+        spec_ok = True
+        for i, (step, ok) in enumerate(zip(case["steps"], spec["steps"])):
+            if ok is False:
+                spec_ok = False
+                rows = obs["steps"][i].get("rules") or []
+                detail = (f"get_ruleset call {i + 1} of {len(case['steps'])} ({self._step_args(step)}): the ruleset is not "
+                          f"the rules of the strictness restricted as asked with distances scaled once by this "
+                          f"request's multipliers; it holds {len(rows)} rules, first {rows[:1]}")
+                break
+        if spec_ok:
+            for i, ok in enumerate(spec["final"]):
+                if ok is False:
+                    spec_ok = False
+                    detail = (f"the ruleset handed out by call {i + 1} ({self._step_args(case['steps'][i])}) no longer "
+                              f"holds its scaled distances after the later calls: first rule now {(obs['final'][i] or [None])[:1]}, "
+                              f"was {obs['steps'][i].get('rules', [None])[:1]}")
+                    break
+        if spec_ok:
+            for i, ok in enumerate(spec.get("checks", [])):
+                if ok is False:
+                    spec_ok = False
+                    detail = (f"check_options at call {i + 1} ({self._step_args(case['steps'][i])}) "
+                              f"{'reported no issue for' if obs['steps'][i].get('check') else 'refused'} options that are "
+                              f"{'not ' if obs['steps'][i].get('check') else ''}fine (positive multipliers, known rule names and categories)")
+                    break
+        if not corr and not detail:
+            detail = "rulesets: model and implementation differ"
+        errs = [s["err"] for s in obs["steps"] if "err" in s]
+        if any(e.startswith("other:") for e in errs):
+            spec_ok = False
+            detail = f"get_ruleset raised {errs}; " + detail
+        tags = ["rulesets", f"steps{len(case['steps'])}"] + (["ruleset-error"] if errs else [])
+        nontrivial = sum(1 for r in obs["reqs"] if r["fungi"] and (r["cmul"] != [1, 1] or r["nmul"] != [1, 1])) >= 1 \
+            and len(case["steps"]) >= 2
+        return Judgement(corr, spec_ok, nontrivial=nontrivial, tags=tuple(tags), detail=detail)
+
     @staticmethod
     def _first_diff(model: List[Dict[str, Any]], impl: List[Dict[str, Any]]) -> str:
         if len(model) != len(impl):
@@ -742,7 +952,7 @@ class C02(Property):
     def key(self, case: Dict[str, Any]) -> str:
         import hashlib
         import json
-        c = {k: case.get(k) for k in ("kind", "files", "text", "shipped", "cmul", "nmul")}
+        c = {k: case.get(k) for k in ("kind", "files", "text", "shipped", "cmul", "nmul", "steps", "strictness", "via")}
         return hashlib.md5(json.dumps(c, sort_keys=True).encode()).hexdigest()
 
     # ------------------------------------------------------------------ shrinking
@@ -751,6 +961,16 @@ class C02(Property):
             text = case["text"]
             for i in range(len(text)):
                 yield dict(case, text=text[:i] + text[i + 1:])
+            return
+        if case["kind"] == "rulesets":
+            steps = case["steps"]
+            for i in range(len(steps)):
+                if len(steps) > 1:
+                    yield dict(case, steps=steps[:i] + steps[i + 1:])
+            for i, step in enumerate(steps):
+                for key, val in (("names", []), ("cats", []), ("cmul", None), ("nmul", None)):
+                    if step[key] != val:
+                        yield dict(case, steps=steps[:i] + [dict(step, **{key: val})] + steps[i + 1:])
             return
         if "files" not in case:
             return
